@@ -530,10 +530,15 @@ def non_blocking_rpc_method_call(context: "qmi.core.context.QMI_Context",
                                  rpc_object_address: QMI_MessageHandlerAddress,
                                  method_name: str,
                                  rpc_lock_token: Optional[QMI_LockTokenDescriptor],
+                                 /,
                                  *args: Any,
                                  **kwargs: Any
                                  ) -> Any:
-    """Helper function that performs a non-blocking call to a specific method of the target RPC object."""
+    """Helper function that performs a non-blocking call to a specific method of the target RPC object.
+
+    The helper's own parameters are positional-only, so that any keyword argument of the target method
+    (including one named e.g. `context` or `method_name`) is forwarded via `kwargs`.
+    """
     if "rpc_timeout" in kwargs:
         raise RuntimeError("rpc_timeout parameter makes no sense for non-blocking invocation.")
 
@@ -546,11 +551,16 @@ def blocking_rpc_method_call(context: "qmi.core.context.QMI_Context",
                              rpc_object_address: QMI_MessageHandlerAddress,
                              method_name: str,
                              rpc_lock_token: Optional[QMI_LockTokenDescriptor],
+                             /,
                              *args: Any,
                              rpc_timeout: Optional[float] = None,
                              **kwargs: Any
                              ) -> Any:
-    """Helper function that performs a blocking call to a specific method of the target RPC object."""
+    """Helper function that performs a blocking call to a specific method of the target RPC object.
+
+    The helper's own parameters are positional-only, so that any keyword argument of the target method
+    (including one named e.g. `context` or `method_name`) is forwarded via `kwargs`.
+    """
     future = QMI_RpcFuture(context, rpc_object_address, rpc_lock_token)
     future.send_method_rpc_request_message(method_name, args, kwargs)
     return future.wait(rpc_timeout)
